@@ -36,7 +36,7 @@ func runCLI(args ...string) (code int) {
 	return
 }
 
-var policyPwPool = []string{strings.Repeat("a", 80), strings.Repeat("password", 9), strings.Repeat("qwerty", 12) + "1", "a", "password", "qwerty123", "alice2020", "whawty", "Tr0ub4dor&3", "correct horse battery staple", "zQ9#vLp2!xTe", "aaaaaaaaaaaaaaaaaaaaaaaa", "iloveyou", "J8$kd0-2mQ", "summer2024!", "x"}
+var policyPwPool = []string{strings.Repeat("a", 80), strings.Repeat("password", 9), strings.Repeat("qwerty", 12) + "1", "a", "password", "qwerty123", "alice2020", "whawty", "Tr0ub4dor&3", "correct horse battery staple", "zQ9#vLp2!xTe", "aaaaaaaaaaaaaaaaaaaaaaaa", "iloveyou", "J8$kd0-2mQ", "summer2024!", "x", "p@ssw0rd", "pr1nc3ss", "f00tb@ll", "P@ssw0rd1", "kX7#mP2$vL9@qR4&wT6!zN8%", "plinth ochre wombat sextant gherkin"}
 
 func propC17(r *Run) {
 	inAgentBubble(r, func(w *AWorld) {
@@ -44,7 +44,7 @@ func propC17(r *Run) {
 		w.fs.PutDir(cfg.BaseDir, 0o700)
 		// policy condition: valid or not
 		kind := []string{"score", "entropy", "time"}[r.Choose("cond-kind", 3)]
-		thr := map[string][]uint64{"score": {0, 1, 2, 3, 4}, "entropy": {0, 10, 20, 35, 60}, "time": {0, 1, 1000, 1000000, 1000000000000}}[kind][r.Choose("threshold", 5)]
+		thr := map[string][]uint64{"score": {0, 1, 2, 3, 4}, "entropy": {0, 10, 20, 35, 60}, "time": {0, 1, 1000, 1000000, 1000000000000, 31536000, 18000000000000000000}}[kind][r.Choose("threshold", len(map[string][]int{"score": {0, 1, 2, 3, 4}, "entropy": {0, 1, 2, 3, 4}, "time": {0, 1, 2, 3, 4, 5, 6}}[kind]))]
 		cond := fmt.Sprintf("%s >= %d", kind, thr)
 		if r.Choose("bad-policy", 5) == 0 {
 			bad := []string{"", "score", "score >= ", "score > 2", "score => 2", "score >= -1", "score >= 5", "score >= two", "strength >= 2", "score >= 2 extra", "entropy >= 1.5", "time >= 99999999999999999999", "SCORE >= 2", "score>=2"}[r.Choose("bad-cond", 14)]
